@@ -87,6 +87,7 @@ ENV = dict(
     Count=lambda s: len(s),
     D_=D,
     Seq_=Seq,
+    sum=sum, len=len, abs=abs, max=max, min=min,
 )
 
 _CTX_TYPES = (ast.Name, ast.Attribute, ast.Subscript, ast.Tuple, ast.List, ast.Starred)
